@@ -61,7 +61,7 @@ from typing import Any
 
 RULE = ("every region of every record of the C10 spec families (length 360, six genes on a 60-base raster; "
         "1-3 protoclusters over contiguous anchors x neighbourhood 0/15/45, subregions, sideloaded areas, "
-        "19 gene shapes x 20 decorations, long locus tags, hand-made layouts off the raster, prepeptides with leader/tail present "
+        "19 gene shapes x 20 decorations, long locus tags, twelve-gene records whose regions hold areas numbered 8-12,  hand-made layouts off the raster, prepeptides with leader/tail present "
         "or absent on every gene of a later region and of a region over the origin, origin-spanning multi-exon genes "
         "of both strands cut by the region boundary in an exon / in the intron / not at all; linear and circular, regions at 0, "
         "at the record end, over the origin, over the whole circle, containing origin-spanning genes, first and "
